@@ -17,8 +17,8 @@ type dmat struct {
 	a []float64
 }
 
-func newD(n int) dmat               { return dmat{n, make([]float64, n*n)} }
-func (m dmat) at(i, j int) float64  { return m.a[i*m.n+j] }
+func newD(n int) dmat                  { return dmat{n, make([]float64, n*n)} }
+func (m dmat) at(i, j int) float64     { return m.a[i*m.n+j] }
 func (m dmat) set(i, j int, v float64) { m.a[i*m.n+j] = v }
 
 func identD(n int) dmat {
